@@ -70,6 +70,7 @@ def run(tier: str) -> int:
         cfgs = [dict(w=1, depth=2), dict(w=2, depth=2), dict(w=3, depth=2)]
     else:
         cfgs = [dict(w=1, depth=3), dict(w=2, depth=3), dict(w=3, depth=3), dict(w=4, depth=2)]
+    z3conf.refsem_selftest(rep)
     exprspace.run_e1(rep, "mc.checks.c01:monitor", cfgs)
     patterns.run_patterns(rep, "mc.checks.c01:pattern_monitor", tier)
     z3conf.run_z3conf(rep, tier)
